@@ -242,6 +242,7 @@ def run(ctx):
     ctx.run_rule('C15.3a', 'T10', 'command-line symbols: shared by reference, cloned per file', perfile.r_symbols_per_file, prog)
     ctx.run_rule('C15.3b', 'T1', 'parser / preprocessor state is per file', perfile.r_parsers_per_file, prog)
     ctx.run_rule('C15.4a', 'T8', 'cycle search skips candidates only on its two guards (no memo across roots)', c05.r_recursion_guard, prog)
+    ctx.run_rule('C15.4c', 'T2', 'what a cycle search remembers does not depend on which type was searched first: dead ends only after a complete search, counted skips, per root', c05.r_dead_ends, prog)
     ctx.run_rule('C15.4b', 'T2', 'no report is gated by first-seen state that outlives the element', r_no_first_seen_gating, prog)
     ctx.run_rule('C15.2b', 'T1', 'the table of seen definitions is written only by the step that also checks and reports', r_symmetric_redefinition_table, prog)
     ctx.run_rule('C15.5', 'T10', 'the diagnostics emitted and counted are exactly what into_updated returned', r_emitted_is_updated, prog)
